@@ -48,7 +48,7 @@ BASE["raise"] = False
 
 def plan(tier):
     q = tier == "quick"
-    out = [{"name": "main", "examples": 1500 if q else 150000}, {"name": "discovery", "examples": 800 if q else 80000}]
+    out = [{"name": "main", "examples": 4000 if q else 150000}, {"name": "discovery", "examples": 2000 if q else 80000}]
     for f in findings.open_for(PROPERTY):
         if f.exclude_profile:
             out.append({"name": "probe:" + f.id, "examples": 300 if q else 3000, "shards": 4})
